@@ -308,12 +308,12 @@ Definition step (s : state) (e : event) : state * list output :=
   | EvFailWrite => (set_wctl s true (wdelay s), [])
   | EvWriteDelay dt => (set_wctl s (wfail s) dt, [])
   | EvSubmit c st =>
-      match ph s with
+      if Nat.eqb (handles s) 0 then (s, [])              (* no handle left: nobody can send *)
+      else match ph s with
       | PDone =>            (* receiver dropped: the send fails, the command is dropped *)
           (s, drop_queue [c])
       | _ =>
-          if Nat.eqb (handles s) 0 then (s, [])          (* nobody can send *)
-          else if is_nil (blocked s) && Nat.ltb (length (queue s)) (cfg_cap cfg) then (set_chan s (queue s ++ [c]) (blocked s), [])
+          if is_nil (blocked s) && Nat.ltb (length (queue s)) (cfg_cap cfg) then (set_chan s (queue s ++ [c]) (blocked s), [])
           else match st with
                | SFfi => (s, drop_queue [c])             (* try_send: Full -> the command is dropped *)
                | _ => (set_chan s (queue s) (blocked s ++ [c]), [])
